@@ -477,6 +477,21 @@ fn why_of_validation(e: &ValidationError) -> String {
     format!("{:?}", e).split([' ', '{', '(']).next().unwrap_or("").to_string()
 }
 
+
+/// A response with RCODE NOTAUTH whose TSIG error field reads BADKEY / BADSIG
+/// claims a server-side failure (RFC 8945 section 5.3.2: such responses are
+/// unsigned); a client may take it at that - rejecting it as the server's
+/// complaint instead of checking a MAC it is not supposed to carry - also when
+/// the field got there by a flipped bit in transit.
+fn server_side_claim(delivered: &[u8], t: &Option<RawTsig>, got: &str) -> bool {
+    let claims = |code: u16| delivered.len() >= 4 && delivered[3] & 0x0f == 9 && t.as_ref().is_some_and(|t| t.error == code);
+    let yes = (got == "ServerBadSig" && claims(16)) || (got == "ServerBadKey" && claims(17));
+    if yes {
+        sim::stat("probe.corrupted_into_a_server_side_error_claim");
+    }
+    yes
+}
+
 fn why_name(w: &Why) -> &'static str {
     match w {
         Why::FormErr => "FormErr",
@@ -1249,8 +1264,11 @@ fn transaction(w: &World) {
                 viol("restore", "answer-differs-from-original".into(), "verified answer differs from what the server built".into());
             }
         }
-        (Err(e), Verdict::Reject(why, _)) => {
+        (Err(e), Verdict::Reject(why, t)) => {
             let got = why_of_validation(e);
+            if server_side_claim(&delivered, t, &got) {
+                return;
+            }
             if got != why_name(why) {
                 viol("error-class", format!("client-answer/expected-{}-got-{}", why_name(why), got), format!("after {:?} the client reported {:?}; RFC 8945 model: {:?}", m2, e, why));
                 return;
@@ -1481,8 +1499,11 @@ fn lib_sequence(w: &World) {
                 }
                 prior_rcvd = rcvd.clone();
             }
-            (Err(e), Verdict::Reject(why, _)) => {
+            (Err(e), Verdict::Reject(why, t)) => {
                 let got = why_of_validation(e);
+                if server_side_claim(&delivered, t, &got) {
+                    return;
+                }
                 if got != why_name(why) {
                     viol("error-class", format!("client-seq/expected-{}-got-{}", why_name(why), got), format!("message {} after {:?}: client {:?}, model {:?}", i, m, e, why));
                     return;
